@@ -150,14 +150,18 @@ class C13(InputProp):
             pairs.append((((art("T"),), (None, v1, None)), ((art("T"),), (None, v2, None))))        # subtitle
             pairs.append((((art("T"),), (None, None, v1)), ((art("T"),), (None, None, v2))))        # editor
         pairfam = Items(pairs, name="pair")
+        # values that are falsy in Python without being "not given": revision 0, empty display title / subtitle / editor / title
+        falsy_items = [("A", "T", 0, None), ("A", "T", "", None), ("A", "T", None, ""), ("A", "", None, None), ("A", "T", "1", "d"), ("C", "", (("A", "U", 0, ""),))]
+        falsy_fields = [(None, None, None), ("", None, None), (None, "", None), (None, None, ""), ("", "", "")]
+        falsy = Product(Seqs(falsy_items, 2, minlen=1), falsy_fields, name="small-x-fields")
         # the same request identified by other interpreter processes (other hash seeds: set/dict iteration order differs there)
         procs = Items([((), (None, None, None)), ((("A", "T", None, None),), (None, None, None)), ((("A", "T", "1", "d"), ("C", "c", (("A", "U", None, None),))), ("t", "s", "e")),
                        ((("A", "Ä b", None, None), ("A", "T", "7", None)), (None, None, ("lic", "ed")))], name="other-processes")
         if tier == "quick":
-            self.space = Concat(small, pairfam, procs, name="mb")
+            self.space = Concat(small, falsy, pairfam, procs, name="mb")
         else:
             big = Product(Seqs(ITEMS, 3, minlen=3), [(None, None, None), (None, None, ("lic", "ed"))], name="three-items")
-            self.space = Concat(small, big, pairfam, procs, name="mb")
+            self.space = Concat(small, big, falsy, pairfam, procs, name="mb")
 
     def with_nulls(self, x):
         if isinstance(x, list):
